@@ -46,3 +46,6 @@ impl VxDisplay for char {
 pub fn vx_to_string<T: VxDisplay>(x: &T) -> (r: String)
     ensures r@ == x.display_spec()
 { unimplemented!() }
+impl<T: VxDisplay> VxDisplay for &T {
+    open spec fn display_spec(&self) -> Seq<char> { (**self).display_spec() }
+}
